@@ -6,6 +6,7 @@ VARIABLE i
 Fix(k) == [k EXCEPT !.required = {k.required[j] : j \in 1..Len(k.required)}]
 C13v(o) == LET k == Fix(o.c) IN
   IF ~C13_OnlyIfAllowedP(k, o.established) THEN "C13_EstablishedAgainstPolicy"
+  ELSE IF Malformed(k) THEN (IF o.established THEN "C13_EstablishedAgainstPolicy" ELSE "ok")
   ELSE IF ~C13_RejectedWhenNotAllowedP(k, o.rejected) THEN "C13_NotRejected"
   ELSE IF o.rejected /\ ~C13_ReasonP(k, o.src, o.rsn) THEN "C13_Reason"
   ELSE IF ~C13_NoHandlerP(o.established, o.calls) THEN "C13_HandlerAfterReject"
